@@ -45,7 +45,8 @@ def cases(draw):
         "dest": draw(st.sampled_from(["dst", "dst", "pkg.sub"])),
         "dst_has_imports": draw(st.booleans()),
         "clients": [draw(st.sampled_from(ELEMENT_STYLES)) for _ in range(3)],
-        "leaf_clients": [draw(st.sampled_from(["import_dotted", "from_pkg_import", "from_pkg_import_as", "from_leaf_import", "import_dotted_as"])) for _ in range(2)],
+        "leaf_clients": [draw(st.sampled_from(["import_dotted", "from_pkg_import", "from_pkg_import_as", "from_leaf_import", "import_dotted_as", "from_pkg_import_twice"])) for _ in range(2)],
+        "sibling_named_like_dest": draw(st.booleans()),
         "relative_in_pkg": draw(st.booleans()),
         "method_other_module": draw(st.integers(0, 3)) == 0,
         "method_uses_global": draw(st.booleans()),
@@ -105,6 +106,11 @@ def render(case):
         u = {"function": "%s(2)" % ref, "class": "%s(2).v" % ref, "variable": ref}[el]
         modname = path[:-3].replace("/", ".")
         files[path] = imp + "def use():\n    return %s\n" % u
+        if path == "pkg/cli.py" and case.get("sibling_named_like_dest") and el != "class":
+            # the client in the package also takes a name from its SIBLING pkg/dst.py, relatively: a different module than the
+            # top-level dst.py the element may move to
+            files["pkg/dst.py"] = "local_thing = 5\n"
+            files[path] = "from .dst import local_thing\n" + imp + "def use():\n    return %s + local_thing\n" % u
         mains.append("import %s\nprint(%s.use())\n" % (modname, modname))
     # clients of the leaf module (for module moves out of a package)
     for k, style in enumerate(case["leaf_clients"]):
@@ -117,6 +123,9 @@ def render(case):
             body = "from pkg import leaf\ndef use():\n    return leaf.leaf_fn() + leaf.LEAF\n"
         elif style == "from_pkg_import_as":
             body = "from pkg import leaf as lf\ndef use():\n    return lf.leaf_fn() + lf.LEAF\n"
+        elif style == "from_pkg_import_twice":
+            # two separate statements bring the module in
+            body = "from pkg import sub, leaf\nfrom pkg import leaf as lf2\ndef use():\n    return leaf.leaf_fn() + lf2.LEAF + sub.sub_own()\n"
         else:
             body = "from pkg.leaf import leaf_fn, LEAF\ndef use():\n    return leaf_fn() + LEAF\n"
         files[path] = body
@@ -146,7 +155,7 @@ def describe(case):
 def hazards(case):
     hz = set()
     a = case["action"]
-    if a in ("move_leaf_to_root",) and "from_pkg_import_as" in case["leaf_clients"]:
+    if a in ("move_leaf_to_root",) and {"from_pkg_import_as", "from_pkg_import_twice"} & set(case["leaf_clients"]):
         hz.add("from_pkg_import_module_as_alias_left_behind")
     if a == "move_global" and "from_name_as" in case["clients"]:
         hz.add("aliased_from_import_of_moved_global_left_behind")
